@@ -106,6 +106,8 @@ class Gen:
             c["raise"] = True
         if r.random() < p["inner_ops"]:
             c["op"] = self.inner_op(pool)
+        if r.random() < 0.15:
+            c["partial"] = True
         return c
 
     def ids(self):
@@ -174,6 +176,8 @@ class Gen:
         s = {"op": "apply", "pool": pool["idx"], "num": num, "args": r.choice([0, 0, 1, 2, "list"]),
              "kwargs": r.choice([None, None, 0, 1, 2]), "gname": self.gname() if depth == 0 else None,
              "fname": self.fname(), "marker": r.random() < p["marker"]}
+        if not s["marker"] and r.random() < 0.4:
+            s["flavour"] = "method"
         if depth == 0:
             s["ecb"], s["ccb"] = self.cb(pool), self.cb(pool)
             s["bodies"] = self.bodies(pool)
@@ -192,7 +196,7 @@ class Gen:
         n = r.choice([0, 1, 2, 3, 4, 5, 6, 8, 12])
         s = {"op": "map", "pool": pool["idx"], "kind": kind, "n": n, "nc": r.choice([1, 1, 2, 2, 3, 4]),
              "gname": self.gname(), "fname": self.fname(), "marker": r.random() < p["marker"],
-             "iter": r.choice(["gen"] * 5 + ["list", "tuple"]),
+             "iter": r.choice(["gen"] * 5 + ["list", "tuple", "dictvalues"]),
              "ecb": self.cb(pool), "ccb": self.cb(pool), "bodies": self.bodies(pool)}
         if n and r.random() < p["bad_elems"] and (kind != "map" or s["marker"]):
             s["bad"] = sorted({r.randrange(n) for _ in range(r.choice([1, 1, 2, 3]))})
